@@ -83,6 +83,35 @@ def cache[**Args, Result](
         return _wrap
 
 
+class _InstanceKey:
+    """
+    Weak reference to a method receiver usable as a part of the cache key.
+    Compares by identity - equal but distinct instances must not share cache entries.
+    """
+
+    __slots__ = ("_hash", "_reference")
+
+    def __init__(
+        self,
+        instance: object,
+    ) -> None:
+        self._reference: ref[object] = ref(instance)
+        self._hash: int = id(instance)
+
+    def __hash__(self) -> int:
+        return self._hash
+
+    def __eq__(
+        self,
+        other: object,
+    ) -> bool:
+        if not isinstance(other, _InstanceKey):
+            return False
+
+        instance: object | None = self._reference()
+        return instance is not None and instance is other._reference()
+
+
 class _CacheEntry[Entry](NamedTuple):
     value: Entry
     expire: float | None
@@ -175,7 +204,7 @@ class _SyncCache[**Args, Result]:
         **kwargs: Args.kwargs,
     ) -> Result:
         key: Hashable = _make_key(
-            args=(ref(__method_self), *args),
+            args=(_InstanceKey(__method_self), *args),
             kwds=kwargs,
             typed=True,
         )
@@ -293,7 +322,7 @@ class _AsyncCache[**Args, Result]:
     ) -> Result:
         loop: AbstractEventLoop = get_running_loop()
         key: Hashable = _make_key(
-            args=(ref(__method_self), *args),
+            args=(_InstanceKey(__method_self), *args),
             kwds=kwargs,
             typed=True,
         )
